@@ -18,16 +18,16 @@ def _nontrivial(req, out):
 CFG = {
     "level": "translation_validation",
     "level_text": "Translation validation with a proved oracle: Lean reference loader `loadRef` + renderer for the generated "
-                  "presentation subset. PROVED for all inputs (render_load_anchor_free): for EVERY admissible stream in which no "
-                  "node carries an anchor and no node is an alias, loadRef(render s) = s.trees - that is the UTF-8 byte layer, "
-                  "layer 1 (flow collections, double-quoted scalars/keys), layer 2 (block mappings/sequences with nesting, "
-                  "indentation steps, compact forms, plain/single/double scalars and keys, every null/bool/int spelling), layer 3 "
-                  "(literal and folded block scalars, every chomping indicator, content indentation 1-9 with or without "
-                  "indicator, folds, at any depth and as a document root), layer 4 (comment lines, blank lines and trailing "
-                  "comments wherever `admissible` allows them), layer 5 (LF/CRLF/CR) and layer 7 (`---`/`...`, any number of "
-                  "documents, root node on the marker line, filler lines between documents). Layer 6 (anchors/aliases) is "
-                  "`render_load_partial_anchors`: kernel-evaluated on an explicit finite family only; its quantifier is carried "
-                  "by the correspondence (the driver re-evaluates loadRef(render s) = trees on every generated stream). "
+                  "presentation subset. PROVED for all inputs (render_load / render_load_full): for EVERY admissible stream "
+                  "loadRef(render s) = s.trees - the UTF-8 byte layer, layer 1 (flow collections, double-quoted scalars/keys), "
+                  "layer 2 (block mappings/sequences with nesting, indentation steps, compact forms, plain/single/double "
+                  "scalars and keys, every null/bool/int spelling), layer 3 (literal and folded block scalars, every chomping "
+                  "indicator, content indentation 1-9 with or without indicator, folds, at any depth and as a document root), "
+                  "layer 4 (comment lines, blank lines and trailing comments wherever `admissible` allows them), layer 5 "
+                  "(LF/CRLF/CR), layer 6 (anchors and aliases in flow and block context, scoping as in `PNode.scope`) and "
+                  "layer 7 (`---`/`...`, any number of documents, root node on the marker line, filler lines between documents). "
+                  "No layer is left to run-time evaluation; the driver still re-evaluates loadRef(render s) = trees and "
+                  "`admissible` on every generated stream. "
                   "The 7 000-line Rust oracle parser is NOT modelled, only its observable result "
                   "(YamlIndex::build + YamlValue traversal + to_json, and `yq -o json`) is tied to loadRef and to the "
                   "generated tree; loadRef is validated as YAML on the in-subset cases of the repository's YAML Test Suite.",
@@ -40,7 +40,7 @@ CFG = {
     "lean_modules": ["SuccinctlyVerif.Props.C14"],
     "required_theorems": ["SV.Props.C14.render_load_flow", "SV.Props.C14.render_load_breaks", "SV.Props.C14.render_load_flow_breaks",
                           "SV.Props.C14.render_load_block", "SV.Props.C14.render_load_block_breaks",
-                          "SV.Props.C14.render_load_anchor_free", "SV.Props.C14.render_load_docs"],
+                          "SV.Props.C14.render_load", "SV.Props.C14.render_load_full", "SV.Props.C14.render_load_docs"],
     "lean_files": ["SuccinctlyVerif/Props/C14.lean", "SuccinctlyVerif/Proof/YamlRoundTrip.lean", "SuccinctlyVerif/Proof/YamlRefBlock.lean", "SuccinctlyVerif/Proof/YamlRefBlockScalar.lean", "SuccinctlyVerif/Proof/YamlRefDocs.lean", "SuccinctlyVerif/Proof/YamlFamilies.lean",
                    "SuccinctlyVerif/Spec/YamlRef.lean", "SuccinctlyVerif/Spec/YamlTree.lean",
                    "SuccinctlyVerif/Spec/YamlLoad.lean"],
